@@ -1,5 +1,5 @@
 """C11: logging fidelity -- the log files are an exact transcript."""
-from simpex import sendlog, interact_fam
+from simpex import sendlog, interact_fam, unicode_fam
 from simpex.runner import CheckSpec
 from checks.c01_c03_engine import COMPONENTS
 
@@ -9,7 +9,8 @@ RULE = ('the C08 histories (send family interleaved with reads against an echoin
         'the reads delivered to matching; logfile_send == concatenation of what each send-family call was asked to send (coerced '
         'argument, + linesep for sendline, control byte decoded in unicode mode); logfile == both merged in operation order; every '
         'write is followed by a flush before the next write; every logged object has the API string type. '
-        'During interact() (a quarter of the runs): logs get the API string type; logfile_read == what was copied to the display; '
+        'In an eighth of the runs (C07 scenarios, blocking and awaited) the read log is compared with the decoding of the bytes the '
+        'kernel delivered. During interact() (a quarter of the runs): logs get the API string type; logfile_read == what was copied to the display; '
         'logfile_send == what was forwarded to the child. Non-trivial: >= 1 log write; distinct by trace digest')
 
 ASSUME = ['a quarter of the runs are interact() sessions (C15 harness) with log files attached (clauses C11.interact_*)']
@@ -17,7 +18,7 @@ ASSUME = ['a quarter of the runs are interact() sessions (C15 harness) with log 
 
 def nontrivial(scn, info):
     c = info.get('counters', {})
-    return c.get('sent_bytes', 0) > 0 or c.get('read_chunks', 0) > 0 or c.get('typed', 0) > 0 or c.get('child_wrote', 0) > 0
+    return c.get('sent_bytes', 0) > 0 or c.get('read_chunks', 0) > 0 or c.get('typed', 0) > 0 or c.get('child_wrote', 0) > 0 or scn.get('family') == 'unicode'
 
 
 def tag(scn, v):
@@ -25,6 +26,15 @@ def tag(scn, v):
 
 
 def generate(rng):
+    if rng.random() < 0.12:
+        # read-side logging against kernel truth, incl. the asyncio path (PatternWaiter.data_received logs too)
+        scn = unicode_fam.generate(rng)
+        scn['logs'] = rng.choice([['logfile_read'], ['logfile'], ['logfile', 'logfile_read']])
+        if scn['transport'] in ('fd', 'pty') and rng.random() < 0.6:
+            scn['async'] = True
+            if scn.get('drain') == 'read':
+                scn['drain'] = 'expect_eof'
+        return scn
     if rng.random() < 0.25:
         scn = interact_fam.generate(rng)
         scn['logs'] = rng.choice([['logfile'], ['logfile_read', 'logfile_send'], ['logfile_read'], ['logfile_send']])
@@ -33,6 +43,15 @@ def generate(rng):
 
 
 def run(scn):
+    if scn.get('family') == 'unicode':
+        vs, info = unicode_fam.run(scn)
+        out = []
+        for v in vs:
+            if v.clause in ('C07.log_text', 'C07.log_type'):
+                v.clause = 'C11.read_log_kernel' if v.clause == 'C07.log_text' else 'C11.type'
+                v.detail['log'] = 'async' if scn.get('async') else 'sync'
+                out.append(v)
+        return out, info
     if scn.get('family') == 'interact':
         return interact_fam.run(scn, 'C11')
     return sendlog.run(scn, 'C11')
